@@ -89,7 +89,7 @@ func main() {
 
 	// ---------------- fillets and chamfers ----------------
 	var grid []v2.Vec
-	G := vlib.Pick(c, 5, 6) // thorough: 6x6 grid
+	G := vlib.Pick(c, 5, 7) // thorough: 7x7 grid
 	for x := 0; x < G; x++ {
 		for y := 0; y < G; y++ {
 			grid = append(grid, v2.Vec{X: float64(x), Y: float64(y)})
